@@ -74,6 +74,9 @@ def make_hooks(spec, st):
                 except Exception as ex:
                     st.errors.append((hook, type(ex).__name__, str(ex)[:120]))
                     raise
+                # hook edits are in-memory changes of the session: they reach the reference model at once; a later
+                # rollback discards them together with everything else the session did
+                apply_effects(eng, st)
             d[hook] = f
         hooks[e['name']] = d
     return hooks
@@ -82,17 +85,18 @@ def make_hooks(spec, st):
 def apply_effects(eng, st):
     """hook edits -> reference model (working state)"""
     from vlib import hmodel
+    states = [eng.working] + ([eng.candidate] if getattr(eng, 'candidate', None) is not None else [])
     for ef in st.effects:
         if ef[0] == 'set':
             oid = eng._peek_oid(ef[1])      # the object need not be one of the harness handles
-            if isinstance(oid, int) and oid in eng.working.objs:
-                eng.working.objs[oid].vals['hk'] = ef[2]
+            for state in states:
+                if isinstance(oid, int) and oid in state.objs: state.objs[oid].vals['hk'] = ef[2]
         else:
             _, h, pk, src = ef
             oid = 100000 + pk
-            if oid not in eng.working.objs:
-                eng.working.objs[oid] = hmodel.Obj(oid, 'HLog', {'id': pk, 'src': src})
-                eng.h[oid] = h; eng.rev[id(h)] = oid
+            for state in states:
+                if oid not in state.objs: state.objs[oid] = hmodel.Obj(oid, 'HLog', {'id': pk, 'src': src})
+            eng.h[oid] = h; eng.rev[id(h)] = oid
     del st.effects[:]
 
 
@@ -173,7 +177,6 @@ def run_history(spec, modes, workdir, rng, n_ops, ops=None):
     orig_step = eng.step
     def step(op):
         out = orig_step(op)
-        if out.startswith('raised') or out == 'diverged': del st.effects[:]   # the flush did not complete: nothing of it is kept
         apply_effects(eng, st)
         # every harness step is a quiescent point: hooks and their statements happen inside one pony call
         st.log.append((next(eng.rec.seq), 'step_end', 'raised' if out.startswith('raised') or out == 'diverged' else 'ok', None, None))
@@ -195,8 +198,6 @@ def run_history(spec, modes, workdir, rng, n_ops, ops=None):
         if where in ('commit', 'end'):
             apply_effects(eng, st)
             eng.committed = eng.working.copy()
-        else:
-            del st.effects[:]      # failed flush / rollback / abort: nothing the hooks did is kept
         return orig_observe(where)
     eng.observe_commit = observe_commit
     eng.step = step
